@@ -179,6 +179,31 @@ theorem C07_truncation_partial (pre : List Bytes) (ran : Nat) (fails errs : List
     · exact hpre0 l h
     · exact hall l (List.mem_of_mem_take h)
 
+/-- **C07_never_crash** — for *every* byte string on the child's stderr (and a failed spawn) the
+reader thread ends normally: it records a report or a communication error, never dies with an
+exception that would leave the layer unrecorded. -/
+theorem C07_never_crash (spawnFailed : Bool) (stderr : Bytes) : parentOutcome spawnFailed stderr ≠ .crash := by
+  have hlines : ∀ ls, parseLines ls ≠ .crash := by
+    intro ls
+    unfold parseLines
+    split
+    · intro h; cases h
+    · simp only [decodeNames]
+      split <;> (intro h; cases h)
+  have htail : ∀ t, parseTail t ≠ .crash := by
+    intro t
+    unfold parseTail
+    split
+    · split <;> (intro h; cases h)
+    · intro h; cases h
+  unfold parentOutcome
+  split
+  · intro h; cases h
+  · unfold parse
+    split
+    · exact hlines _
+    · exact htail _
+
 /-- **C07_spawn_failure** — a child that cannot be started yields an error for the layer, whatever
 else is known. -/
 theorem C07_spawn_failure (stderr : Bytes) : parentOutcome true stderr = .commError := rfl
